@@ -304,6 +304,7 @@ func (c *FnCtx) setupSpec(st0 *State) {
 			continue
 		}
 		if ex := c.spec.loops[li.ordinal]; ex != nil && ex != ls {
+			ex.exits = append(ex.exits, ls.exits...)
 			ex.invariants = append(ex.invariants, ls.invariants...)
 			if ls.decreases != nil {
 				ex.decreases = ls.decreases
@@ -745,4 +746,41 @@ func (c *FnCtx) act(name string) Term {
 	c.acts[name] = t
 	c.actOrder = append(c.actOrder, name)
 	return t
+}
+
+// loopExit emits the `loop L exit` assertions on an edge leaving loop li.
+func (c *FnCtx) loopExit(li *loopInfo, st *State, cond Term, from *ssa.BasicBlock) {
+	if c.spec == nil || c.dry {
+		return
+	}
+	ls := c.spec.loops[li.ordinal]
+	if ls == nil || len(ls.exits) == 0 {
+		return
+	}
+	c.curLoop = li
+	defer func() { c.curLoop = nil }()
+	for i, ex := range ls.exits {
+		bc := c.exitBound[ex]
+		if bc == nil {
+			bc = c.bindClause(ex, c.ss().env, "exit")
+			if bc == nil {
+				continue
+			}
+			bc.name = ex.label
+			if bc.name == "" {
+				bc.name = fmt.Sprintf("loop%d.exit%d", li.ordinal, i+1)
+			}
+			if c.exitBound == nil {
+				c.exitBound = map[*clause]*boundClause{}
+			}
+			c.exitBound[ex] = bc
+		}
+		env := c.clauseEnv(bc, st, nil)
+		t, err := c.evalBool(bc.body, env)
+		if err != nil {
+			c.specErr(ex, err)
+			continue
+		}
+		c.emit(&Obligation{Uses: ex.uses, Name: fmt.Sprintf("%s.%s", c.spec.oname(), bc.name), Kind: "loop-exit", Clause: ex.src, Where: fmt.Sprintf("exit of loop %d from b%d", li.ordinal, from.Index), Hyp: cond, Goal: t})
+	}
 }
